@@ -491,6 +491,7 @@ def gen_cases(ctx, n):
     for kind, weight in KIND_MIX:
         for _ in range(max(2, n * weight // total)):
             cases.append(I.gen_input(rng, kind))
+    rng.shuffle(cases)      # every prefix holds all kinds (a batch may be trimmed to fit the time budget)
     return cases
 
 
@@ -599,32 +600,54 @@ class Comparator:
 def run_batch(ctx, cases, children, parallel):
     timeout = CHILD_TIMEOUT_S[ctx.tier]
     t0 = time.monotonic()
-    comparator = Comparator(ctx, cases)
     done, probes, failures = [], {}, 0
-    for label, err, tail, data in replay_in_children(ctx, cases, children, timeout, parallel):
-        ctx.count("children:started")
-        if err is not None:
-            failures += 1
-            ctx.count("children:failed")
-            ctx.notes.append(f"child {label} failed: {err} {tail[-300:]}")
-            continue
-        ctx.count("children:completed")
-        seed = next(s for lab, s, _ in children if lab == label)
-        done.append((label, seed))
-        probes[seed] = data["meta"]["hash_probe"]
-        if str(data["meta"]["hashseed_env"]) != str(seed):
-            ctx.notes.append(f"child {label} ran with PYTHONHASHSEED={data['meta']['hashseed_env']}")
-            failures += 1
+    comparator = None
+
+    def take(results):
+        nonlocal failures, comparator
+        for label, err, tail, data in results:
+            ctx.count("children:started")
+            if err is not None:
+                failures += 1
+                ctx.count("children:failed")
+                ctx.notes.append(f"child {label} failed: {err} {tail[-300:]}")
+                continue
+            ctx.count("children:completed")
+            seed = next(s for lab, s, _ in children if lab == label)
+            done.append((label, seed))
+            probes[seed] = data["meta"]["hash_probe"]
+            if str(data["meta"]["hashseed_env"]) != str(seed):
+                ctx.notes.append(f"child {label} ran with PYTHONHASHSEED={data['meta']['hashseed_env']}")
+                failures += 1
+            yield label, seed, data
+
+    # the first child runs alone: its dumps are the reference and its timing sizes the rest of the batch
+    kept = cases
+    for label, seed, data in take(replay_in_children(ctx, cases, children[:1], timeout, 1)):
+        meta = data["meta"]
+        rest = max(1, len(children) - 1)
+        per_child = max(ctx.time_left() * 0.8, 15.0) * max(1, parallel) / rest
+        cost = meta.get("import_s", 3.0) + meta.get("work_s", 1.0)
+        if cost > per_child and meta.get("work_s", 0) > 0:
+            share = max(0.0, per_child - meta.get("import_s", 3.0)) / meta["work_s"]
+            kept = cases[:max(8, int(len(cases) * share))]
+            ctx.notes.append(f"batch trimmed from {len(cases)} to {len(kept)} inputs to fit the time budget")
+            ctx.count("info:batch-trimmed")
+        comparator = Comparator(ctx, kept)
         comparator.add(label, seed, data)
-        del data
-    comparator.finish()
+    if comparator is not None:
+        for label, seed, data in take(replay_in_children(ctx, kept, children[1:], timeout, parallel)):
+            comparator.add(label, seed, data)
+            del data
+        comparator.finish()
     if len(set(probes.values())) == len(probes) and len(probes) >= 2:
         ctx.count("seeds:distinct-hash-probes", len(probes))
     ctx.extra["child_wall_s"] = round(ctx.extra.get("child_wall_s", 0) + time.monotonic() - t0, 1)
     ctx.extra["hash_seeds_used"] = sorted(set(ctx.extra.get("hash_seeds_used", [])) | set(probes))
     ctx.extra["children"] = sorted(set(ctx.extra.get("children", [])) | {label for label, _ in done})
     ctx.extra["children_compared_with_first"] = max(ctx.extra.get("children_compared_with_first", 0),
-                                                    comparator.compared_children)
+                                                    comparator.compared_children if comparator else 0)
+    ctx.extra["inputs"] = ctx.extra.get("inputs", 0) + len(kept)
     return failures == 0 and len(done) == len(children)
 
 
@@ -635,11 +658,10 @@ def run(ctx):
         clean = run_batch(ctx, cases, children, parallel=4)
     else:
         # one batch per worker, its 34 children run one after the other (16 workers keep 16 cores busy)
-        cases = gen_cases(ctx, ctx.quota(72, 2400))
+        cases = gen_cases(ctx, ctx.quota(72, 1280))
         clean = run_batch(ctx, cases, children, parallel=1)
     if clean:
         ctx.count("children_clean")
-    ctx.extra["inputs"] = ctx.extra.get("inputs", 0) + len(cases)
     ctx.extra["orders_per_input"] = ORDERS
     ctx.extra["layout_note"] = ("memory layout varied by random heap fragmentation per child and replay; allocator "
                                 "addresses themselves cannot be forced")
@@ -699,15 +721,15 @@ def _c17_gene_functions(clause, facts):
 
 _AREA_JSON = r"(\$\.records\[\]\.areas|\$)\[\]\."
 _K4_PATHS = {
-    "candidate_clusters": re.compile(r"^\$\[\]\.(products\[\]|protocluster_numbers\[\]|kind|core|number)$"),
-    "regions": re.compile(r"^\$\[\]\.(products\[\]|detection_rules\[\]|unique_protoclusters\[\])$"),
-    "areas_json": re.compile("^" + _AREA_JSON + r"(products\[\]|candidates\[\]\.(protoclusters\[\]|kind)"
+    "candidate_clusters": re.compile(r"^\$\[\]\.(products\[\]|protocluster_numbers\[\]|kind|core|location|number)$"),
+    "regions": re.compile(r"^\$\[\]\.(products\[\]|detection_rules\[\]|unique_protoclusters\[\]|candidate_numbers\[\])$"),
+    "areas_json": re.compile("^" + _AREA_JSON + r"(products\[\]|candidates\[\](\.(protoclusters\[\]|kind|start|end))?"
                                                  r"|protoclusters\.\*\.(product|core_start|core_end|category|tool))$"),
     "genbank": re.compile(r"^\$\.FEATURES\.(order\[\]|cand_cluster\[\]\.(location|qualifiers(\.\w+(\[\])?)?)"
-                          r"|region\[\]\.qualifiers\.(product|rules)\[\])$"),
+                          r"|region\[\]\.qualifiers\.(product|rules|candidate_cluster_numbers)\[\])$"),
     "results_json_features": re.compile(r"^\$\.records\[\]\.features\.(order\[\]"
                                         r"|cand_cluster\[\]\.(location|qualifiers(\.\w+(\[\])?)?)"
-                                        r"|region\[\]\.qualifiers\.(product|rules)\[\])$"),
+                                        r"|region\[\]\.qualifiers\.(product|rules|candidate_cluster_numbers)\[\])$"),
 }
 _K5_PATHS = {
     "regions": re.compile(r"^\$\[\]\.unique_protoclusters\[\]$"),
